@@ -40,6 +40,30 @@ Proof.
   intros E. destruct (same_forest s s' E) as (A & B & C). apply lab_ok_shrink; assumption.
 Qed.
 
+(** ** A new tree object that has not loaded anything yet *)
+Definition fresh_ms (s : mstate) : mstate :=
+  MState None 0 None (forest s) (init_ver s) (init_opt s) (init_opt s).
+
+(** on a non-empty store LoadVersion answers the same on an unloaded object and on one that
+    has loaded some version, and reaches the same state when it succeeds *)
+Lemma do_load_fresh f iv a b r tv v :
+  f <> [] ->
+  snd (do_load (MState None 0 None f iv a b) v) = snd (do_load (MState r tv r f iv a b) v) /\
+  (snd (do_load (MState None 0 None f iv a b) v) <> XErr ->
+   fst (do_load (MState None 0 None f iv a b) v) = fst (do_load (MState r tv r f iv a b) v)).
+Proof.
+  intros NE. unfold do_load, first_version, latest_version.
+  cbn [forest init_ver init_set init_opt].
+  destruct ((0 <? match f with [] => 0 | (v0, _) :: _ => v0 end) &&
+            (match f with [] => 0 | (v0, _) :: _ => v0 end <? iv));
+    [cbn [fst snd]; split; [reflexivity|congruence]|].
+  destruct (fold_left (fun _ p => fst p) f 0 <? v);
+    [cbn [fst snd]; split; [reflexivity|congruence]|].
+  destruct f as [|p f']; [congruence|].
+  destruct (lookup (if v <=? 0 then fold_left (fun _ p0 => fst p0) (p :: f') 0 else v) (p :: f'));
+    cbn [fst snd]; split; try reflexivity; congruence.
+Qed.
+
 Section Steps.
   Variable H : bytes -> bytes.
 
@@ -453,10 +477,90 @@ Section Steps.
       destruct (tree_of (ms st) v); reflexivity.
   Qed.
 
+  (** ** A new tree object that loads a version directly (no Load() first) *)
+
+  (** MTree reaches the same state by reopening (which loads the latest version) and then
+      loading [v]; the answer of the load is the same even when it fails *)
+  Lemma openat_logical s v :
+    contig s ->
+    snd (do_load (fresh_ms s) v) = last (snd (run H s [OReopen; OLoad v])) XErr /\
+    (snd (do_load (fresh_ms s) v) <> XErr ->
+     fst (do_load (fresh_ms s) v) = fst (run H s [OReopen; OLoad v])).
+  Proof.
+    intros C. cbn [run step].
+    destruct (do_reopen_spec s (contig_forest_ok s C)) as [(F & E)|(NE & r & L & E)]; rewrite E.
+    - unfold fresh_ms. rewrite F.
+      destruct (do_load (MState None 0 None [] (init_ver s) (init_opt s) (init_opt s)) v)
+        as [s2 x2]. cbn [fst snd last]. split; reflexivity.
+    - destruct (do_load_fresh (forest s) (init_ver s) (init_opt s) (init_opt s) r
+                  (latest_version s) v NE) as [A B]. unfold fresh_ms.
+      destruct (do_load (MState r (latest_version s) r (forest s) (init_ver s) (init_opt s)
+                                (init_opt s)) v) as [s2 x2]. cbn [fst snd last] in *.
+      split; assumption.
+  Qed.
+
+  Lemma fcoh_openat st skip v :
+    state_inv (ms st) -> contig (ms st) ->
+    snd (do_load (fresh_ms (ms st)) v) <> XErr -> fcoh st ->
+    fcoh (fst (fstep H st (FOpenAt skip v))).
+  Proof.
+    intros I C Ok [LO UO On]. cbn [fstep step].
+    change (MState None 0 None (forest (ms st)) (init_ver (ms st)) (init_opt (ms st))
+                   (init_opt (ms st))) with (fresh_ms (ms st)).
+    destruct (openat_logical (ms st) v C) as [_ ES]. specialize (ES Ok).
+    assert (I' : state_inv (fst (do_load (fresh_ms (ms st)) v))).
+    { rewrite ES. apply run_inv, I. }
+    assert (C' : contig (fst (do_load (fresh_ms (ms st)) v))).
+    { rewrite ES. apply run_contig; [exact C|]. cbn [run_ok in_contract]. auto. }
+    assert (EF : forest (fst (do_load (fresh_ms (ms st)) v)) = forest (ms st))
+      by (rewrite do_load_forest; reflexivity).
+    assert (W : forall k, walk_get (root (fst (do_load (fresh_ms (ms st)) v))) k =
+                          walk_get (last_saved (fst (do_load (fresh_ms (ms st)) v))) k).
+    { intros k.
+      destruct (do_load_cases (fresh_ms (ms st)) v) as [E|[(_ & _ & E)|(tv & r & _ & E)]];
+        rewrite E; reflexivity. }
+    destruct (do_load_cases (fresh_ms (ms st)) v) as [E|[(_ & _ & E)|(tv & r & _ & E)]];
+      rewrite E in *; cbn [fst snd] in *; [congruence| |];
+      (apply fcoh_enable; cbn [with_ms ms fidx dlabel mlabel skipf adds rems]; auto;
+       [apply (lab_ok_same_forest (ms st)); [exact EF|apply (lab_ok_relabel _ _ _ _ LO)]
+       |apply uns_ok_nil; intros _; exact W]).
+  Qed.
+
+  (** When the load fails the new object stays unloaded: the logical state is [fresh_ms], the
+      persisted part and the (empty) unsaved part are still coherent, but nothing has compared
+      the label with the store, so the clause [fc_on] may fail (and [contig] fails for
+      [fresh_ms] of a non-empty store).  See [openat_failed_refuted] in FastLifeFacts. *)
+  Lemma openat_error st skip v :
+    snd (do_load (fresh_ms (ms st)) v) = XErr ->
+    fstep H st (FOpenAt skip v) =
+      (FS (fresh_ms (ms st)) (fidx st) (dlabel st) (dlabel st) skip [] [], XErr).
+  Proof.
+    intros E. cbn [fstep step].
+    change (MState None 0 None (forest (ms st)) (init_ver (ms st)) (init_opt (ms st))
+                   (init_opt (ms st))) with (fresh_ms (ms st)).
+    destruct (do_load_cases (fresh_ms (ms st)) v) as [E1|[(_ & _ & E1)|(tv & r & _ & E1)]];
+      rewrite E1 in *; cbn [snd] in E; try discriminate E. reflexivity.
+  Qed.
+
+  Lemma openat_error_parts st skip :
+    fcoh st ->
+    let st' := FS (fresh_ms (ms st)) (fidx st) (dlabel st) (dlabel st) skip [] [] in
+    lab_ok (ms st') (fidx st') (dlabel st') (mlabel st') /\
+    uns_ok (ms st') (skipf st') (adds st') (rems st').
+  Proof.
+    intros [LO _ _]. cbn [ms fidx dlabel mlabel skipf adds rems]. split.
+    - apply (lab_ok_same_forest (ms st)); [reflexivity|apply (lab_ok_relabel _ _ _ _ LO)].
+    - apply uns_ok_nil. reflexivity.
+  Qed.
+
   (** ** The usage contract of the life cycle and the preservation theorem *)
   Definition fin_contract (st : fstate) (o : fop) : Prop :=
     in_contract (ms st) (logical o) /\
-    match o with FSave => save_honest (ms st) | _ => True end.
+    match o with
+    | FSave => save_honest (ms st)
+    | FOpenAt _ v => snd (do_load (fresh_ms (ms st)) v) <> XErr   (* the load succeeds *)
+    | _ => True
+    end.
 
   Theorem fcoh_step st o :
     state_inv (ms st) -> contig (ms st) -> fin_contract st o -> fcoh st ->
@@ -468,6 +572,7 @@ Section Steps.
     - apply fcoh_save; assumption.
     - apply fcoh_rollback; assumption.
     - apply fcoh_open; assumption.
+    - apply fcoh_openat; assumption.
     - apply fcoh_load; assumption.
     - apply fcoh_lvfo; assumption.
     - apply fcoh_prune; assumption.
